@@ -899,3 +899,49 @@ def relate_variants(res, prog_path, ev_path, workdir):
                 res["summary"]["bad"] = res["summary"].get("bad", 0) + 1
     res["summary"]["variants_compared"] = ncmp
     return res
+
+
+# ---------------------------------------------------------------------------------------------
+# matmul with a rank-1 operand next to a rank>=2 operand: every small size, flag, batch and tracked subset
+def mm_out_dims(da, ta, db, tb):
+    """output dims by the documented rule (a rank-1 operand is the one-row matrix [1, k]); None if not admitted"""
+    if len(da) == 1 and len(db) == 1:
+        return [1] if (not ta and not tb and da == db) else None
+    pa = [1] + da if len(da) == 1 else da
+    pb = [1] + db if len(db) == 1 else db
+    rows, inner = (pa[-1], pa[-2]) if ta else (pa[-2], pa[-1])
+    innerb, cols = (pb[-1], pb[-2]) if tb else (pb[-2], pb[-1])
+    if inner != innerb:
+        return None
+    la, lb = pa[:-2], pb[:-2]
+    lead = bdims(la, lb) if (la and lb) else (la or lb)
+    if lead is None:
+        return None
+    return lead + [rows, cols]
+
+
+def rank1_matmul_cases(tier, seed):
+    rnd = random.Random(seed)
+    cases = []
+    sizes = (1, 2, 3) if tier != "thorough" else (1, 2, 3, 4)
+    for k in sizes:
+        for c in sizes:
+            for lead in ([], [2], [2, 2]):
+                for ta in (False, True):
+                    for tb in (False, True):
+                        forms = [([k], lead + ([c, k] if tb else [k, c])),        # vector x matrix
+                                 (lead + ([k, c] if ta else [c, k]), [k]),        # matrix x vector
+                                 ([k], lead + [k, 1]), (lead + [1, k], [k]), ([c], lead + [1, k])]
+                        for da, db in forms:
+                            od = mm_out_dims(da, ta, db, tb)
+                            if od is None or (len(da) == 1 and len(db) == 1):
+                                continue
+                            for trk in ([True, True], [True, False], [False, True]):
+                                dc = rnd.choice([None, None, [od[-1]], [1]])
+                                st = FS.mm_case(da, ta, db, tb, dc, trk=trk + [True])
+                                st[-1] = op("matmul", [1, 2] + ([3] if dc else []), 10, ta=ta, tb=tb)
+                                st.append(backward(10, seed_tensor(od, k0=k + c)))
+                                cases.append(st)
+    if tier != "thorough" and len(cases) > 1200:
+        cases = rnd.sample(cases, 1200)
+    return cases
